@@ -2,14 +2,15 @@
 (***************************************************************************)
 (* TLC as the generator of small structured operation sequences: every     *)
 (* well-formed token sequence with at most MaxNodes nodes and nesting      *)
-(* depth at most MaxDepth.  L<j> is the j-th leaf operation (the harness   *)
-(* gives the leaves their meaning: copies, compute ops, readers, barriers  *)
-(* over a few buffers), F ( ... ) a loop with a run-time trip count,       *)
-(* X ( ... E ... ) a conditional with both arms.  Used for exhaustive      *)
-(* small-scope inputs of the barrier and dispatch checks (C13, C14).       *)
+(* depth at most MaxDepth.  L<j> is the j-th leaf operation and F<k> the   *)
+(* k-th loop kind (the harness gives them their meaning: copies, compute   *)
+(* ops, readers, barriers over a few buffers; bounds and steps of loops),  *)
+(* F<k> ( ... ) is a loop, X ( ... E ... ) a conditional with both arms.   *)
+(* Used for exhaustive small-scope inputs of the barrier, dispatch and     *)
+(* loop-restructuring checks (C13, C14, C17).                              *)
 (***************************************************************************)
 EXTENDS Integers, Sequences, TLC
-CONSTANTS NL, MaxNodes, MaxDepth, WithIf
+CONSTANTS NL, NF, MaxNodes, MaxDepth, WithIf
 VARIABLES toks, stack, nodes
 vars == <<toks, stack, nodes>>
 
@@ -17,15 +18,16 @@ Init == toks = <<>> /\ stack = <<>> /\ nodes = 0
 AddLeaf == \E j \in 1..NL :
   /\ nodes < MaxNodes
   /\ toks' = Append(toks, "L" \o ToString(j)) /\ nodes' = nodes + 1 /\ UNCHANGED stack
-Open == \E t \in (IF WithIf = 1 THEN {"F", "X"} ELSE {"F"}) :
+Loops == {"F" \o ToString(j) : j \in 1..NF}      \* loop kinds (bounds / steps chosen by the harness)
+Open == \E t \in (IF WithIf = 1 THEN Loops \cup {"X"} ELSE Loops) :
   /\ nodes < MaxNodes /\ Len(stack) < MaxDepth
-  /\ toks' = Append(toks, t) /\ stack' = Append(stack, t) /\ nodes' = nodes + 1
+  /\ toks' = Append(toks, t) /\ stack' = Append(stack, IF t = "X" THEN "X" ELSE "F") /\ nodes' = nodes + 1
 Else ==
   /\ stack # <<>> /\ stack[Len(stack)] = "X"
   /\ toks' = Append(toks, "E") /\ stack' = [stack EXCEPT ![Len(stack)] = "XE"] /\ UNCHANGED nodes
 Close ==
   /\ stack # <<>> /\ stack[Len(stack)] \in {"F", "XE"}
-  /\ toks[Len(toks)] \notin {"F"}            \* no empty loop bodies
+  /\ toks[Len(toks)] \notin Loops          \* no empty loop bodies
   /\ toks' = Append(toks, ")") /\ stack' = SubSeq(stack, 1, Len(stack) - 1) /\ UNCHANGED nodes
 Next == AddLeaf \/ Open \/ Else \/ Close
 Spec == Init /\ [][Next]_vars
